@@ -41,6 +41,10 @@ def run(pid, tier):
     sub0 = scen[::3]
     obs0 = pc.execute(rep, sub0, 'default', 'C17write0', env={'DRV_WRITE_ZERO': '1'})
     pc.validate(rep, 'C17', sub0, obs0, 'C17-write-returns-0', kindfn=kind, fields=pc.FIELDS['C06'] | {'errs', 'out.block-header'})
+    # a C89 build of the library (no stdbool: scpi_bool_t is an unsigned char, truth values and what is passed for them go through it)
+    sub89 = scen[1::2]
+    obs89 = pc.execute(rep, sub89, 'c89', 'C17c89')
+    pc.validate(rep, 'C17', sub89, obs89, 'C17-c89', kindfn=kind, fields=pc.FIELDS['C06'] | {'errs', 'out.block-header'})
     # the build without device-dependent error information has its own branches in the result functions
     small = [s for s in scen if sum(len(c) for c in s['chunks']) < 64 and not any(o[0] == 'r' and o[1] == 'blk' and len(o[2]) > 300 for sc_ in s['scripts'] for o in sc_[3])]
     obs2 = pc.execute(rep, small, 'noinfo', 'C17n')
